@@ -17,7 +17,7 @@ dask.config.set(scheduler="synchronous")
 
 from pyresample import _caching
 from pyresample.future.resamplers.resampler import Resampler, hash_dict, hash_resampler_geometries
-from pyresample.geometry import AreaDefinition, StackedAreaDefinition, SwathDefinition
+from pyresample.geometry import AreaDefinition, StackedAreaDefinition, SwathDefinition, get_array_hashable
 from pyresample.resampler import BaseResampler, _create_dask_name, crop_source_area
 
 req = json.load(sys.stdin)
@@ -145,6 +145,8 @@ def mk_swath(g):
     dims = ("y", "x")[-lon.ndim:]
     if kind == "xr":
         return SwathDefinition(xr.DataArray(lon, dims=dims), xr.DataArray(lat, dims=dims), **kw)
+    if kind == "xrnamed":    # a DataArray with its own .name: still just a wrapper around the numpy array
+        return SwathDefinition(xr.DataArray(lon, dims=dims, name="lons"), xr.DataArray(lat, dims=dims, name="lats"), **kw)
     if kind == "xrattr":     # DataArrays carrying a precomputed hash (get_array_hashable returns it instead of the bytes)
         return SwathDefinition(xr.DataArray(lon, dims=dims, attrs={"hash": g["attr"][0].encode()}),
                                xr.DataArray(lat, dims=dims, attrs={"hash": g["attr"][1].encode()}), **kw)
@@ -401,6 +403,44 @@ for case in req.get("stack_hist", []):
     except Exception as e:
         res.append(err(e))
     out["stack_hist"].append(res)
+
+# ------------------------------------------------------------------ get_array_hashable on array trees
+import hashlib as _hl
+
+
+def mk_tree(t):
+    if t["k"] == "np":
+        a = np.array(rows(t["data"]), dtype=np.float64)
+        if t.get("mask") is not None:
+            a = np.ma.masked_array(a, mask=np.array(t["mask"], dtype=bool))
+        return a
+    if t["k"] == "dask":
+        return da.from_array(np.array(rows(t["data"]), dtype=np.float64), chunks=t.get("chunks", 2))
+    inner = mk_tree(t["inner"])
+    attrs = {} if t.get("attr") is None else {"hash": t["attr"].encode()}
+    return xr.DataArray(inner, dims=("y", "x"), name=t.get("name"), attrs=attrs)
+
+
+def tree_names(t, arr):
+    if t["k"] == "dask":
+        return [arr.name]
+    if t["k"] == "xr":
+        return tree_names(t["inner"], arr.data)
+    return []
+
+
+for t in req.get("gah", []):
+    try:
+        arr = mk_tree(t)
+        h = get_array_hashable(arr)
+        if isinstance(h, (bytes, str)):
+            r = {"name": h.decode() if isinstance(h, bytes) else h}
+        else:
+            r = {"bytes": _hl.sha1(np.ascontiguousarray(h).tobytes()).hexdigest()}
+        r["dask_names"] = tree_names(t, arr)
+        out.setdefault("gah", []).append(r)
+    except Exception as e:
+        out.setdefault("gah", []).append(err(e))
 
 # ------------------------------------------------------------------ oracle tables, closed under the WKT round trip
 rt = []
